@@ -165,6 +165,20 @@ struct Flag {
     bound: f64,
 }
 
+/// worst |mean|/RE per region: below bump, bump, (2m, 5.5m], (5.5m, 20m), >= 20m
+fn regional_means(b: usize, g: &[u64], acc: &Acc) -> [f64; 5] {
+    let m = (1u64 << b) as f64;
+    let re = (3f64 * 2f64.ln() - 1f64).sqrt() / m.sqrt();
+    let s = acc.seeds as f64;
+    let mut w = [0f64; 5];
+    for gi in 0..g.len() {
+        let x = g[gi] as f64 / m;
+        let r = if x < 0.5 { 0 } else if x <= 2.0 { 1 } else if x <= 5.5 { 2 } else if x < 20.0 { 3 } else { 4 };
+        w[r] = w[r].max((acc.sum[gi] / s).abs() / re);
+    }
+    w
+}
+
 fn evaluate(b: usize, g: &[u64], acc: &Acc, only: Option<&[usize]>) -> (Vec<Flag>, [f64; 4]) {
     let m = (1u64 << b) as f64;
     let re = (3f64 * 2f64.ln() - 1f64).sqrt() / m.sqrt();
@@ -192,7 +206,9 @@ fn evaluate(b: usize, g: &[u64], acc: &Acc, only: Option<&[usize]>) -> (Vec<Flag
         if rms > rms_bound {
             flags.push(Flag { gi, clause: if in_bump { "rms-in-bump" } else { "rms" }, observed: rms / re, bound: rms_bound / re });
         }
-        let mean_c = if n >= 20.0 * m {
+        // raw-estimate regime (the bias correction ends at 5 m): HLL is unbiased there; observed
+        // on the unchanged tree: |mean| <= 0.07 RE for 5.5m..20m and <= 0.05 RE beyond (large S)
+        let mean_c = if n > 5.5 * m {
             0.1
         } else if in_bump {
             1.0
@@ -202,7 +218,7 @@ fn evaluate(b: usize, g: &[u64], acc: &Acc, only: Option<&[usize]>) -> (Vec<Flag
         let mean_bound = mean_c * re + 5.0 * rms.max(0.3 * re) / s.sqrt();
         worst[2] = worst[2].max(mean.abs() / re);
         if mean.abs() > mean_bound {
-            flags.push(Flag { gi, clause: if n >= 20.0 * m { "mean-raw-regime" } else { "mean" }, observed: mean / re, bound: mean_bound / re });
+            flags.push(Flag { gi, clause: if n > 5.5 * m { "mean-raw-regime" } else { "mean" }, observed: mean / re, bound: mean_bound / re });
         }
         let tail = acc.tail[gi] as f64;
         worst[3] = worst[3].max(tail / s);
@@ -216,8 +232,8 @@ fn evaluate(b: usize, g: &[u64], acc: &Acc, only: Option<&[usize]>) -> (Vec<Flag
 
 fn seeds_for(ctx: &Ctx, b: usize) -> usize {
     match (ctx.tier, ctx.is_dbg()) {
-        (Tier::Quick, false) => if b <= 12 { 2000 } else if b <= 15 { 800 } else { 600 },
-        (Tier::Thorough, false) => if b <= 12 { 20_000 } else if b <= 15 { 6000 } else { 2500 },
+        (Tier::Quick, false) => if b <= 8 { 10_000 } else if b <= 12 { 2000 } else if b <= 15 { 800 } else { 600 },
+        (Tier::Thorough, false) => if b <= 8 { 60_000 } else if b <= 12 { 20_000 } else if b <= 15 { 6000 } else { 2500 },
         (_, true) => 0,
     }
 }
@@ -335,7 +351,7 @@ pub fn run(ctx: &Ctx) -> Report {
     let mut items: Vec<(usize, usize, usize)> = vec![]; // (b, first seed, n seeds)
     for b in 4..=18usize {
         let s = seeds_for(ctx, b);
-        let chunk = if b >= 15 { 2 } else if b >= 12 { 8 } else { 40 };
+        let chunk = if b >= 15 { 2 } else if b >= 12 { 8 } else if b >= 9 { 40 } else { 250 };
         let mut k = 0;
         while k < s {
             items.push((b, k, chunk.min(s - k)));
@@ -417,6 +433,10 @@ pub fn run(ctx: &Ctx) -> Report {
             if acc.regimes[ri] == 0 {
                 rep.inconclusive.push(format!("hll(b={}): estimator regime '{}' never reached", b, name));
             }
+        }
+        let rm = regional_means(b, g, acc);
+        for (name, v) in ["below-bump", "bump", "2m..5.5m", "5.5m..20m", ">=20m"].iter().zip(rm.iter()) {
+            rep.max(&format!("abs_mean_over_re/{}", name), *v);
         }
         let (flags, worst) = evaluate(b, g, acc, None);
         rep.max("rms_over_re_outside_bump", worst[0]);
